@@ -5,6 +5,34 @@ import Proofs.Lemmas.ClientInv0
 namespace Client
 open Client.Spec
 
+theorem publishWithId_fields (s : State) (p : Pub) :
+    (publishWithId s p).1.outgoingRel = s.outgoingRel ∧
+    (publishWithId s p).1.incomingPub = s.incomingPub ∧
+    (publishWithId s p).1.maxInflight = s.maxInflight ∧
+    (publishWithId s p).1.upperLimit = s.upperLimit ∧
+    (publishWithId s p).1.ver = s.ver ∧
+    (publishWithId s p).1.manualAcks = s.manualAcks ∧
+    (publishWithId s p).1.aliases = s.aliases ∧
+    (publishWithId s p).1.lastPkid = s.lastPkid := by
+  unfold publishWithId
+  split
+  · simp
+  · split
+    · simp [State.pushOut, State.pushEv]
+    · split
+      · simp
+      · simp [publishTail, storePub, State.pushOut, State.pushEv]
+
+theorem nextPkidSt_fields (s : State) :
+    (nextPkidSt s).outgoingRel = s.outgoingRel ∧
+    (nextPkidSt s).incomingPub = s.incomingPub ∧
+    (nextPkidSt s).maxInflight = s.maxInflight ∧
+    (nextPkidSt s).upperLimit = s.upperLimit ∧
+    (nextPkidSt s).ver = s.ver ∧
+    (nextPkidSt s).manualAcks = s.manualAcks ∧
+    (nextPkidSt s).aliases = s.aliases := by
+  unfold nextPkidSt; split <;> simp
+
 /-- fields untouched by requests that do not go through `save_pubrel` -/
 theorem user_frame (s : State) (u : UserReq) :
     (handleOutgoing s u.toRequest).1.outgoingRel = s.outgoingRel ∧
@@ -13,17 +41,18 @@ theorem user_frame (s : State) (u : UserReq) :
     (handleOutgoing s u.toRequest).1.upperLimit = s.upperLimit ∧
     (handleOutgoing s u.toRequest).1.ver = s.ver ∧
     (handleOutgoing s u.toRequest).1.manualAcks = s.manualAcks ∧
-    (handleOutgoing s u.toRequest).1.lastPuback = s.lastPuback := by
+    (handleOutgoing s u.toRequest).1.aliases = s.aliases := by
   cases u with
   | publish q t =>
-    simp only [UserReq.toRequest, handleOutgoing, outgoingPublish]
-    split
-    · simp [publishTail, State.pushOut, State.pushEv]
-    · simp only [if_true]
-      split
-      · simp
-      · unfold publishWithId nextPkidSt
-        split <;> (try split) <;> (try split) <;> simp [publishTail, State.pushOut, State.pushEv]
+    simp only [UserReq.toRequest]
+    by_cases hq : q = 0
+    · subst hq; rw [eff_publish_qos0]; simp [State.pushOut, State.pushEv]
+    · by_cases hp : nextPkidPanics s = true
+      · simp [handleOutgoing, outgoingPublish, aliasTooLarge, hq, hp]
+      · rw [eff_publish_fresh s _ rfl hq rfl (by simpa using hp)]
+        obtain ⟨a1, a2, a3, a4, a5, a6, a7, _⟩ := publishWithId_fields (nextPkidSt s) { qos := q, pkid := nextPkidVal s, tag := t }
+        obtain ⟨b1, b2, b3, b4, b5, b6, b7⟩ := nextPkidSt_fields s
+        exact ⟨a1.trans b1, a2.trans b2, a3.trans b3, a4.trans b4, a5.trans b5, a6.trans b6, a7.trans b7⟩
   | subscribe n =>
     simp only [UserReq.toRequest, handleOutgoing, outgoingSubscribe, nextPkidSt]
     split <;> (try split) <;> (try split) <;> simp [State.pushOut, State.pushEv]
@@ -44,8 +73,10 @@ theorem ping_frame (s : State) :
     (handleOutgoing s .pingreq).1.manualAcks = s.manualAcks ∧
     (handleOutgoing s .pingreq).1.collision = s.collision ∧
     (handleOutgoing s .pingreq).1.inflight = s.inflight ∧
-    (handleOutgoing s .pingreq).1.lastPuback = s.lastPuback ∧
-    (handleOutgoing s .pingreq).1.lastPkid = s.lastPkid := by
+    (handleOutgoing s .pingreq).1.aliases = s.aliases ∧
+    (handleOutgoing s .pingreq).1.lastPkid = s.lastPkid ∧
+    (handleOutgoing s .pingreq).1.outgoingOrder = s.outgoingOrder ∧
+    (handleOutgoing s .pingreq).1.outgoingCount = s.outgoingCount := by
   simp only [handleOutgoing, outgoingPing]
   split <;> (try split) <;> (try split) <;> simp [State.pushOut, State.pushEv]
 
@@ -55,21 +86,24 @@ theorem ping_outcome (s : State) : ∀ q, (handleOutgoing s .pingreq).2 ≠ .ok 
   simp only [handleOutgoing, outgoingPing]
   split <;> (try split) <;> (try split) <;> simp
 
-theorem publishAlias_fields (s : State) (p : InPub) :
-    (publishAlias s p).upperLimit = s.upperLimit ∧ (publishAlias s p).ver = s.ver ∧
-    (publishAlias s p).manualAcks = s.manualAcks ∧ (publishAlias s p).lastPkid = s.lastPkid ∧
-    (publishAlias s p).incomingPub = s.incomingPub ∧ (publishAlias s p).outgoingRel = s.outgoingRel ∧
-    (publishAlias s p).outgoingPub = s.outgoingPub ∧ (publishAlias s p).maxInflight = s.maxInflight ∧
-    (publishAlias s p).collision = s.collision ∧ (publishAlias s p).inflight = s.inflight ∧
-    (publishAlias s p).lastPuback = s.lastPuback := by
-  unfold publishAlias
-  split
-  · simp
-  · split
-    · simp
-    · split
-      · split <;> simp
-      · split <;> simp [State.pushOut, State.pushEv]
+/-- the alias prefix of `handle_incoming_publish` only touches the alias map -/
+theorem publishAlias_fields {s s1 : State} {p : InPub} (h : publishAlias s p = some s1) :
+    s1.upperLimit = s.upperLimit ∧ s1.ver = s.ver ∧
+    s1.manualAcks = s.manualAcks ∧ s1.lastPkid = s.lastPkid ∧
+    s1.incomingPub = s.incomingPub ∧ s1.outgoingRel = s.outgoingRel ∧
+    s1.outgoingPub = s.outgoingPub ∧ s1.maxInflight = s.maxInflight ∧
+    s1.collision = s.collision ∧ s1.inflight = s.inflight ∧
+    s1.outgoingOrder = s.outgoingOrder ∧ s1.outgoingCount = s.outgoingCount ∧ s1.events = s.events := by
+  unfold publishAlias at h
+  split at h
+  · cases h; simp
+  · split at h
+    · cases h; simp
+    · split at h
+      · cases h; split <;> simp
+      · split at h
+        · cases h; simp
+        · cases h
 
 theorem handlePublish_fields (s : State) (p : InPub) :
     (handlePublish s p).1.upperLimit = s.upperLimit ∧ (handlePublish s p).1.ver = s.ver ∧
@@ -77,46 +111,72 @@ theorem handlePublish_fields (s : State) (p : InPub) :
     (handlePublish s p).1.outgoingRel = s.outgoingRel ∧
     (handlePublish s p).1.outgoingPub = s.outgoingPub ∧ (handlePublish s p).1.maxInflight = s.maxInflight ∧
     (handlePublish s p).1.collision = s.collision ∧ (handlePublish s p).1.inflight = s.inflight ∧
-    (handlePublish s p).1.lastPuback = s.lastPuback := by
-  obtain ⟨a1, a2, a3, a4, a5, a6, a7, a8, a9, a10, a11⟩ := publishAlias_fields s p
+    (handlePublish s p).1.outgoingOrder = s.outgoingOrder ∧ (handlePublish s p).1.outgoingCount = s.outgoingCount := by
   unfold handlePublish
-  generalize publishAlias s p = s1 at *
-  simp only [outgoingPuback, outgoingPubrec]
-  (repeat' split) <;> simp_all [State.pushOut, State.pushEv]
-
-theorem pubcompTakeCollision_fields (s : State) (i : Nat) :
-    (pubcompTakeCollision s i).upperLimit = s.upperLimit ∧ (pubcompTakeCollision s i).ver = s.ver ∧
-    (pubcompTakeCollision s i).manualAcks = s.manualAcks ∧ (pubcompTakeCollision s i).lastPkid = s.lastPkid ∧
-    (pubcompTakeCollision s i).incomingPub = s.incomingPub ∧ (pubcompTakeCollision s i).outgoingRel = s.outgoingRel ∧
-    (pubcompTakeCollision s i).outgoingPub = s.outgoingPub ∧ (pubcompTakeCollision s i).maxInflight = s.maxInflight ∧
-    (pubcompTakeCollision s i).inflight = s.inflight ∧ (pubcompTakeCollision s i).lastPuback = s.lastPuback := by
-  unfold pubcompTakeCollision
   split
-  · split <;> simp [State.pushOut, State.pushEv]
+  · simp [outgoingDisconnect, State.pushOut, State.pushEv]
+  · rename_i s1 hal
+    obtain ⟨a1, a2, a3, a4, a5, a6, a7, a8, a9, a10, a11, a12, a13⟩ := publishAlias_fields hal
+    simp only [outgoingPuback, outgoingPubrec]
+    (repeat' split) <;> simp_all [State.pushOut, State.pushEv]
+
+theorem release_fields (s : State) (i : Nat) :
+    (release s i).1.upperLimit = s.upperLimit ∧ (release s i).1.ver = s.ver ∧
+    (release s i).1.manualAcks = s.manualAcks ∧ (release s i).1.lastPkid = s.lastPkid ∧
+    (release s i).1.incomingPub = s.incomingPub ∧ (release s i).1.maxInflight = s.maxInflight ∧
+    (release s i).1.outgoingRel = s.outgoingRel ∧ (release s i).1.aliases = s.aliases ∧
+    (∀ j, (release s i).2 ≠ .ok (some (.pubrel j))) := by
+  unfold release
+  split
+  · split <;> simp [storePub, State.pushOut, State.pushEv]
   · simp
 
-theorem handlePubcomp_fields (s : State) (i r : Nat) :
-    (handlePubcomp s i r).1.upperLimit = s.upperLimit ∧ (handlePubcomp s i r).1.ver = s.ver ∧
-    (handlePubcomp s i r).1.manualAcks = s.manualAcks ∧ (handlePubcomp s i r).1.lastPkid = s.lastPkid ∧
-    (handlePubcomp s i r).1.incomingPub = s.incomingPub ∧
-    (handlePubcomp s i r).1.outgoingPub = s.outgoingPub ∧ (handlePubcomp s i r).1.maxInflight = s.maxInflight ∧
-    (handlePubcomp s i r).1.lastPuback = s.lastPuback := by
-  unfold handlePubcomp
+theorem handlePuback_fields (s : State) (i : Nat) :
+    (handlePuback s i).1.upperLimit = s.upperLimit ∧ (handlePuback s i).1.ver = s.ver ∧
+    (handlePuback s i).1.manualAcks = s.manualAcks ∧ (handlePuback s i).1.lastPkid = s.lastPkid ∧
+    (handlePuback s i).1.incomingPub = s.incomingPub ∧ (handlePuback s i).1.maxInflight = s.maxInflight ∧
+    (handlePuback s i).1.outgoingRel = s.outgoingRel ∧ (handlePuback s i).1.aliases = s.aliases ∧
+    (∀ j, (handlePuback s i).2 ≠ .ok (some (.pubrel j))) := by
+  unfold handlePuback
   split
-  · unfold handlePubcompV4
+  · simp
+  · simp
+  · split
+    · simp
+    · exact release_fields _ i
+
+theorem handlePubrec_fields (s : State) (i r : Nat) :
+    (handlePubrec s i r).1.upperLimit = s.upperLimit ∧ (handlePubrec s i r).1.ver = s.ver ∧
+    (handlePubrec s i r).1.manualAcks = s.manualAcks ∧ (handlePubrec s i r).1.lastPkid = s.lastPkid ∧
+    (handlePubrec s i r).1.incomingPub = s.incomingPub ∧ (handlePubrec s i r).1.maxInflight = s.maxInflight ∧
+    (handlePubrec s i r).1.aliases = s.aliases := by
+  unfold handlePubrec
+  split
+  · simp
+  · simp
+  · simp only
     split
     · split
       · simp
-      · simp only
-        split
-        · split <;> simp [State.pushOut, State.pushEv]
-        · simp
+      · obtain ⟨a1, a2, a3, a4, a5, a6, a7, a8, a9⟩ := release_fields
+          { s with outgoingPub := s.outgoingPub.set i none, inflight := s.inflight - 1 } i
+        exact ⟨a1, a2, a3, a4, a5, a6, a8⟩
+    · split <;> simp [State.pushOut, State.pushEv]
+
+theorem handlePubcomp_fields (s : State) (i : Nat) :
+    (handlePubcomp s i).1.upperLimit = s.upperLimit ∧ (handlePubcomp s i).1.ver = s.ver ∧
+    (handlePubcomp s i).1.manualAcks = s.manualAcks ∧ (handlePubcomp s i).1.lastPkid = s.lastPkid ∧
+    (handlePubcomp s i).1.incomingPub = s.incomingPub ∧ (handlePubcomp s i).1.maxInflight = s.maxInflight ∧
+    (handlePubcomp s i).1.aliases = s.aliases ∧
+    (∀ j, (handlePubcomp s i).2 ≠ .ok (some (.pubrel j))) := by
+  unfold handlePubcomp
+  split
+  · split
     · simp
-  · obtain ⟨a1, a2, a3, a4, a5, a6, a7, a8, a9, a10⟩ := pubcompTakeCollision_fields s i
-    unfold handlePubcompV5
-    generalize pubcompTakeCollision s i = s1 at *
-    simp only
-    (repeat' split) <;> simp_all
+    · obtain ⟨a1, a2, a3, a4, a5, a6, a7, a8, a9⟩ := release_fields
+        { s with outgoingRel := s.outgoingRel.set i false, inflight := s.inflight - 1 } i
+      exact ⟨a1, a2, a3, a4, a5, a6, a8, a9⟩
+  · simp
 
 /-- fields no incoming packet touches -/
 theorem incoming_frame (s : State) (p : Incoming) :
@@ -134,16 +194,16 @@ theorem incoming_frame (s : State) (p : Incoming) :
   | suback _ => simp [State.pushEv]
   | unsuback _ => simp [State.pushEv]
   | puback i r =>
-    simp only [handlePuback, pubackCollision]
-    (repeat' split) <;> simp_all [State.pushOut, State.pushEv]
+    obtain ⟨a1, a2, a3, a4, _⟩ := handlePuback_fields (s.pushEv (.incoming (.puback i r))) i
+    exact ⟨a1, a2, a3, a4⟩
   | pubrec i r =>
-    simp only [handlePubrec]
-    (repeat' split) <;> simp [State.pushOut, State.pushEv]
+    obtain ⟨a1, a2, a3, a4, _⟩ := handlePubrec_fields (s.pushEv (.incoming (.pubrec i r))) i r
+    exact ⟨a1, a2, a3, a4⟩
   | pubrel i r =>
     simp only [handlePubrel]
     (repeat' split) <;> simp [State.pushOut, State.pushEv]
   | pubcomp i r =>
-    obtain ⟨a1, a2, a3, a4, _⟩ := handlePubcomp_fields (s.pushEv (.incoming (.pubcomp i r))) i r
+    obtain ⟨a1, a2, a3, a4, _⟩ := handlePubcomp_fields (s.pushEv (.incoming (.pubcomp i r))) i
     exact ⟨a1, a2, a3, a4⟩
   | connack ok sp rm am =>
     simp only [handleConnack]
